@@ -721,7 +721,7 @@ def cancel_settle(check: Check, repo: Repo, mods: list[Module], floor: int = 8) 
                     if not no_exc(a_, b_, label):
                         return False
                     # `if <carrier>:` false edge = nothing to settle
-                    if label and label[0] == "cond" and label[2] is False and isinstance(label[1], ast.Name) and label[1].id in _carriers:
+                    if label and label[0] == "cond" and label[2] is False and _nonempty_subject(label[1]) in _carriers:
                         return False
                     return True
 
@@ -736,6 +736,26 @@ def cancel_settle(check: Check, repo: Repo, mods: list[Module], floor: int = 8) 
                          f"the caller is released while the cancelled work is still unwinding")
                 n += 1
     check.floor(rule, floor, ".cancel() sites")
+
+
+def _nonempty_subject(e: ast.AST) -> str | None:
+    """X for the spellings of 'X is not empty': `X`, `len(X) > 0`, `len(X) != 0`, `len(X) >= 1`, `0 < len(X)`."""
+    if isinstance(e, ast.Name):
+        return e.id
+    if isinstance(e, ast.Compare) and len(e.ops) == 1:
+        l, r, op = e.left, e.comparators[0], e.ops[0]
+
+        def is_len(x: ast.AST) -> str | None:
+            return x.args[0].id if isinstance(x, ast.Call) and call_name(x) == "len" and len(x.args) == 1 and isinstance(x.args[0], ast.Name) else None
+
+        def const(x: ast.AST):
+            return x.value if isinstance(x, ast.Constant) else None
+
+        if is_len(l) and ((isinstance(op, (ast.Gt, ast.NotEq)) and const(r) == 0) or (isinstance(op, ast.GtE) and const(r) == 1)):
+            return is_len(l)
+        if is_len(r) and ((isinstance(op, (ast.Lt, ast.NotEq)) and const(l) == 0) or (isinstance(op, ast.LtE) and const(l) == 1)):
+            return is_len(r)
+    return None
 
 
 def cleanup_gather(check: Check, repo: Repo, mods: list[Module]) -> None:
@@ -1886,44 +1906,53 @@ def abort_callback(check: Check, repo: Repo, rule: str = "ABORT-CALLBACK") -> No
     check.rule(
         rule,
         "Computation.abort: once the computation is found pending, the only way around the abort callback is the "
-        "absence of a callback - every normal path from the start of the pending arm to the function's exit passes "
-        "the call of the callback or the false edge of a pure presence test (`on_abort is not None`). The callback is "
-        "what stops the sub-executor and closes the streams the computation has already opened; making it depend on "
-        "anything else (the outcome of future.cancel(), which is False for a future that is done but not yet settled) "
-        "leaves those sources open",
+        "absence of a callback - every normal path from the function's entry to its exit on which the status is "
+        "pending (edges that refute `status is _PENDING` are not followed) passes the call of the callback or the "
+        "false edge of a pure presence test (`on_abort is not None`). The callback is what stops the sub-executor and "
+        "closes the streams the computation has already opened; making it depend on anything else (the outcome of "
+        "future.cancel(), which is False for a future that is done but not yet settled) leaves those sources open",
     )
     fn = repo.func("execution.incremental.computation", "Computation.abort")
     cfg = CFG(fn)
-    arms = [i for i in walk_body(fn) if isinstance(i, ast.If) and "_PENDING" in unparse(i.test)]
-    if len(arms) != 1:
-        raise AnalysisError("Computation.abort: pending arm not found")
-    arm = arms[0]
+    if "_PENDING" not in unparse(fn):
+        raise AnalysisError("Computation.abort: the pending status is not tested")
     # the callback: a local holding self._on_abort, or the attribute itself
     cb_names = {"self._on_abort"} | {t.id for s in walk_body(fn) if isinstance(s, ast.Assign) and unparse(s.value) == "self._on_abort"
                                      for t in s.targets if isinstance(t, ast.Name)}
-    calls = [c for s in arm.body for c in ast.walk(s) if isinstance(c, ast.Call) and unparse(c.func) in cb_names]
+    st_names = {"self._status"} | {t.id for s in walk_body(fn) if isinstance(s, ast.Assign) and unparse(s.value) == "self._status"
+                                   for t in s.targets if isinstance(t, ast.Name)}
+    calls = [c for c in walk_body(fn) if isinstance(c, ast.Call) and unparse(c.func) in cb_names]
     if not calls:
-        check.ob(rule, arm, "Computation.abort: pending arm invokes the abort callback", False, "no call of the on_abort callback in the pending arm")
+        check.ob(rule, fn, "Computation.abort: a pending computation invokes the abort callback", False, "no call of the on_abort callback")
         return
     call_nodes = {n for c in calls for n in cfg.node_for_expr(c)}
 
-    def presence(e: ast.AST) -> bool:
-        t = unparse(e)
-        return any(t in (n, f"{n} is not None", f"callable({n})") for n in cb_names)
+    def refutes_pending(t: str, pol: bool) -> bool:
+        for n in st_names:
+            if (t == f"{n} is _PENDING" and not pol) or (t == f"{n} is not _PENDING" and pol):
+                return True
+            if pol and t in (f"{n} is None", f"{n} is _FULFILLED", f"{n} is _REJECTED"):
+                return True
+        return False
+
+    def no_callback(t: str, pol: bool) -> bool:
+        for n in cb_names:
+            if (t in (n, f"{n} is not None", f"callable({n})") and not pol) or (t == f"{n} is None" and pol):
+                return True
+        return False
 
     def follow(a, b, label) -> bool:
         if not no_exc(a, b, label):
             return False
-        if label and label[0] == "cond" and label[2] is False and presence(label[1]):
-            return False
-        if label and label[0] == "cond" and label[2] is True and any(unparse(label[1]) == f"{n} is None" for n in cb_names):
-            return False
+        if label and label[0] == "cond":
+            t, pol = unparse(label[1]), label[2]
+            if refutes_pending(t, pol) or no_callback(t, pol):
+                return False
         return True
 
-    start = cfg.nodes_of(arm.body[0])[0]
-    path = cfg.find_path(start, lambda nd: nd is cfg.exit, follow=follow, avoid=lambda nd: nd in call_nodes)
+    path = cfg.find_path(cfg.entry, lambda nd: nd is cfg.exit, follow=follow, avoid=lambda nd: nd in call_nodes)
     check.ob(rule, calls[0], "Computation.abort: a pending computation with a callback always runs the callback", path is None,
-             "every normal path through the pending arm passes the callback call or the absence test" if path is None else
+             "every normal path with a pending status passes the callback call or the absence test" if path is None else
              "the callback can be skipped although one is set: " + cfg.describe_path(path)[-220:])
 
 
